@@ -397,10 +397,17 @@ package memmetrics
 //@   loop 1 invariant forall k int :: visited(k) ==> in(k, m.statusCodes)
 //@   loop 1 invariant a == csum(visitedset, m, startA, endA, lastclock) && b == csum(visitedset, m, startB, endB, lastclock)
 
+// the quantile is the library's (assumed), reported in nanoseconds: the library holds microseconds
+//@ func (*HDRHistogram).ValueAtQuantile
+//@   props C18
+//@   requires histOK(h)
+//@   modifies nothing
+//@   ensures asks_the_library_once: calls(ValueAtQuantile) == 1 && callarg(ValueAtQuantile, 0, 0) == h.h && callarg(ValueAtQuantile, 0, 1) == q && result == callres(ValueAtQuantile, 0, 0)
 //@ func (*HDRHistogram).LatencyAtQuantile
 //@   props C18
-//@   trusted
-//@   requires h != nil
+//@   requires histOK(h)
+//@   modifies nothing
+//@   ensures microseconds_to_nanoseconds: calls(ValueAtQuantile) == 1 && callarg(ValueAtQuantile, 0, 0) == h && callarg(ValueAtQuantile, 0, 1) == q && result == callres(ValueAtQuantile, 0, 0) * 1000
 
 //@ func (*RTMetrics).Export
 //@   props C09
